@@ -19,6 +19,7 @@ THEOREMS = [
     "swap_exchanges_only_config",
     "equalisation_keeps_ops",
     "cutoffs_equal_after_step",
+    "one_cutoff_after_step_any_managers",
     "swap_counter_exact",
     "decisions_are_threshold_tests",
     "step_pairs",
